@@ -327,6 +327,13 @@ theorem la_x12_tail (ρ : Bump) (msg : List Nat) (cfg : Cfg) :
     LaX12Tail (laExactR ρ) msg (initCtx msg cfg).total :=
   laExactR_x12_tail ρ msg _ (totOK_initCtx msg cfg)
 
+/-- the condition an EDIFACT segment without unlatch needs (`dm_roundtrip_edifact_needs_tail2`) also holds for the
+    exact look-ahead under every float rounding: with two non-extended characters left (plus macro trailer) it
+    answers ASCII from ASCII -/
+theorem la_tail2_ascii (ρ : Bump) (msg : List Nat) (cfg : Cfg) :
+    LaTail2Ascii (laExactR ρ) msg (initCtx msg cfg).total :=
+  laExactR_tail2_ascii ρ msg _ (totOK_initCtx msg cfg)
+
 /-- `dm_roundtrip` for every look-ahead that is exact arithmetic up to float rounding (`LaFloatLike`, in particular
     `laExact` and every `laExactR ρ`): the two end-of-message conditions are discharged; what remains is
     `LaNoEdifactOn la msg` — along this message the look-ahead never proposes EDIFACT from ASCII (e.g. the message
